@@ -459,6 +459,13 @@ impl<'tcx> Exporter<'tcx> {
                 o.push(("kind", J::s("closure")));
                 o.push(("def", J::s(self.body_key(*did))));
             }
+            _ if matches!(c.const_, mir::Const::Unevaluated(uv, _) if uv.promoted.is_some()) => {
+                if let mir::Const::Unevaluated(uv, _) = c.const_ {
+                    o.push(("kind", J::s("promoted")));
+                    o.push(("index", J::Num(uv.promoted.unwrap().as_usize() as i128)));
+                    o.push(("owner", J::s(self.body_key(uv.def))));
+                }
+            }
             _ => {
                 let env = ty::TypingEnv::post_analysis(tcx, owner);
                 let mut done = false;
@@ -647,6 +654,20 @@ impl<'tcx> Exporter<'tcx> {
     fn body(&mut self, d: DefId) -> J {
         let tcx = self.tcx;
         let body = tcx.optimized_mir(d);
+        let mut o = match self.body_json(d, body) {
+            J::Obj(v) => v,
+            _ => unreachable!(),
+        };
+        let mut proms = Vec::new();
+        for pb in tcx.promoted_mir(d).iter() {
+            proms.push(self.body_json(d, pb));
+        }
+        o.push(("promoted".to_string(), J::Arr(proms)));
+        J::Obj(o)
+    }
+
+    fn body_json(&mut self, d: DefId, body: &mir::Body<'tcx>) -> J {
+        let tcx = self.tcx;
         let kind = match tcx.def_kind(d) {
             DefKind::Fn => "Fn",
             DefKind::AssocFn => "AssocFn",
